@@ -102,7 +102,31 @@ func c35GenType(r *Rng, depth int, dictPct int) string {
 }
 
 // c35GenCols: mode 0 plain, 1 top-level dictionary, 2 nested dictionary only, 3 anything
+// dictionaries 3 and 4 levels deep through every container kind (struct, list, large_list,
+// fixed_size_list, map key-side siblings and map values)
+var c35DeepDict = []string{
+	"struct1,struct1,struct1,dict8,str",
+	"list,list,list,dict16,str",
+	"llist,struct1,list,dict8,bin",
+	"flist2,struct1,flist2,dict8,i64",
+	"map,str,map,i32,struct1,dict32,str",
+	"struct2,i64,map,str,list,dict8,str",
+	"list,struct2,str,llist,struct1,dict8,str",
+	"struct1,struct1,struct1,struct1,dict8,str",
+	"map,i64,list,struct2,i32,flist2,dict16,str",
+}
+
 func c35GenCols(r *Rng, mode int) string {
+	if (mode == 2 || mode == 3) && r.Chance(20) {
+		cols := []string{Pick(r, c35DeepDict)}
+		if r.Bool() {
+			cols = append(cols, c35GenType(r, 1, 0))
+		}
+		if r.Bool() {
+			cols[0], cols[len(cols)-1] = cols[len(cols)-1], cols[0]
+		}
+		return strings.Join(cols, ";")
+	}
 	for {
 		n := r.Range(1, 4)
 		if r.Chance(3) {
